@@ -66,7 +66,7 @@ func c34(r *core.Run) {
 		"with the left operand as receiver and the right operand as argument in both engines; (R2) the VM's dispatch switch has an arm for every opcode.Instruction implementation; " +
 		"(R3) the natives registered for the VM's built-in type-bound functions are the same interpreter.Native* implementations the interpreter binds; " +
 		"(R4) methods that InterpreterEnvironment and vmEnvironment both implement are token-identical modulo the environment type, or differ exactly in the reviewed engine-wiring methods; (R5) the interpreter's and the VM's dynamic-cast helpers keep optionals for the same target types; " +
-		"(R6) the peephole matcher looks every instruction of a candidate window up in the jump-target set before continuing (windows never contain or start at … a jump target) and no pattern window contains a jump opcode; (R7) no raw VM.locals / Upvalue.closed slot value is pushed on the operand stack without passing maybeUnwrapImplicitReference."
+		"(R6) the peephole matcher looks every instruction of a candidate window up in the jump-target set before continuing (windows never contain or start at … a jump target) and no pattern window contains a jump opcode; (R7) no raw VM.locals / Upvalue.closed slot value is pushed on the operand stack without passing maybeUnwrapImplicitReference; (R8) every key under which the compiler pools a literal constant names all components of its key type."
 	r.NotDecided = "observational equivalence per program (results, errors, events, storage writes)."
 	w := r.W
 	opm := valueOpMethods(w)
@@ -266,6 +266,8 @@ func c34(r *core.Run) {
 	r.Floor("R5.castunbox", 1)
 	c34Peephole(r)
 	vmImplicitRefRule(r, "R7.implicitref")
+	constantKeysComplete(r, "R8.constkeys")
+	r.Floor("R8.constkeys", 5)
 }
 
 // c34Natives: R3 — for every sema.*FunctionName constant bound in both engines, the VM registers the same
